@@ -68,7 +68,7 @@ impl Property for C13 {
         ]
     }
     fn expected_probes(&self) -> Vec<&'static str> {
-        vec!["recorder_short_writes", "recorder_error", "recorder_write_zero", "load_same_emulator", "load_fresh_dirty", "locked_state", "sp_in_screen", "twin_continuation", "save_failed_cleanly", "iff1_differs_from_iff2_at_save", "save_retried_after_failure", "cpu_halted_at_save"]
+        vec!["recorder_short_writes", "recorder_error", "recorder_write_zero", "load_same_emulator", "load_fresh_dirty", "locked_state", "sp_in_screen", "twin_continuation", "save_failed_cleanly", "iff1_differs_from_iff2_at_save", "save_retried_after_failure", "cpu_halted_at_save", "save_inside_prefix_chain"]
     }
 
     fn gen(&self, rng: &mut Rng, _tier: Tier, _idx: u64) -> Scenario {
@@ -76,7 +76,8 @@ impl Property for C13 {
         sc.set("m128", rng.bool() as i64);
         sc.set("seed", (rng.next() >> 8) as i64);
         sc.set("halted", rng.chance(1, 5) as i64);
-        sc.set("sp_class", rng.range(0, 4));
+        sc.set("sp_class", rng.range(0, 6));
+        sc.set("prefix_at_save", rng.chance(1, 8) as i64);
         sc.set("steps", *rng.pick(&[0i64, 0, 1, 7, 300]));
         sc.set("rec_fault", *rng.pick(&[0i64, 0, 0, 1, 1, 2, 3]));
         sc.set("rec_k", rng.range(0, 12));
@@ -100,8 +101,14 @@ impl Property for C13 {
             1 => 0xFFFE,
             2 => 0x0000, // SP-2 = 0xFFFE, SP-1 = 0xFFFF: both RAM
             3 => 0xC002 + (rng.u16() & 0x3FF0),
+            // the two bytes below SP straddle the border between two 16 KiB pages (or sit right at it)
+            5 => *rng.pick(&[0xC001u16, 0xC001, 0xC000, 0xC002, 0xC003, 0x4002, 0x4003]), // (not around 0x8000: the idle program lives there)
             _ => s.cpu.sp,
         };
+        if m128 && s.port_7ffd & 7 == 2 && s.cpu.sp >= 0xC000 && matches!(sc.get("sp_class"), 3 | 5) {
+            // bank 2 in the top window: the stack would alias the idle program / IM 2 table at 0x8000..
+            s.cpu.sp = 0x4002 + (s.cpu.sp & 1);
+        }
         if sc.get("sp_class") == 0 {
             ctx.probe("sp_in_screen");
         }
@@ -144,8 +151,28 @@ impl Property for C13 {
         for _ in 0..steps {
             step_public(&mut e).map_err(|x| Fail::new("C13.step", "", x))?;
         }
+        // the host may stop the machine between a DD/FD prefix and the rest of the instruction and take the
+        // snapshot there: nothing may be executed by the save (the format cannot carry the pending
+        // prefix, so only the side-effect clause is judged for such saves)
+        let prefix_at_save = sc.get("prefix_at_save") != 0 && !halted_at_save;
+        if prefix_at_save {
+            let mut stc = cpu_state(&mut e);
+            if stc.pc == 0x8000 && !stc.halted {
+                // (interrupts off for this one step: an accepted interrupt would come first)
+                stc.iff1 = false;
+                stc.iff2 = false;
+                stc.to_impl(e.verif_cpu());
+                write_mem(&mut e, 0x8000, &[0xDD, 0xFD, 0x36, 0x05, 0xAA]); // DD FD 36 d n: LD (IY+5),0xAA
+                let _ = step_public(&mut e);
+            }
+            if e.verif_cpu().verif_prefix_pending() {
+                ctx.probe("save_inside_prefix_chain");
+            } else {
+                return Ok(());
+            }
+        }
         // boundary must be clean (no pending prefix / EI)
-        {
+        if !prefix_at_save {
             let st = cpu_state(&mut e);
             if st.no_sample || e.verif_cpu().verif_prefix_pending() {
                 step_public(&mut e).map_err(|x| Fail::new("C13.step", "", x))?;
@@ -203,6 +230,10 @@ impl Property for C13 {
                 &format!("machine={},save_ok={}", machine, r.is_ok() as u8),
                 format!("taking an SNA snapshot changed the running machine ({}); recorder fault kind {}", what, fault),
             ));
+        }
+        if prefix_at_save {
+            ctx.units += 1;
+            return Ok(());
         }
         let mut bytes = out.borrow().clone();
         if fault >= 2 {
